@@ -204,6 +204,28 @@ func c01R2(c *engine.Ctx, u *updFns) {
 				if root == u.applyCombined {
 					okCaller = strings.HasSuffix(engine.Describe(engine.Args(call.Common())[0]), ".seq")
 				}
+				if !okCaller && !u.isAnchor(root) {
+					// a helper extracted from getDifference (the former setState closure as
+					// a method): every caller of it must be one of the getDifference functions
+					callers := 0
+					okCaller = true
+					for _, g := range u.all {
+						for _, k := range engine.Calls(g) {
+							if k.Common().StaticCallee() != root {
+								continue
+							}
+							callers++
+							gr := g
+							for gr.Parent() != nil {
+								gr = gr.Parent()
+							}
+							if gr != u.gd && gr != u.cgd {
+								okCaller = false
+							}
+						}
+					}
+					okCaller = okCaller && callers > 0
+				}
 				c.Check(okCaller, "C01.R2", engine.FuncID(f)+"/calls-SetState#"+ordinalCall(f, call), call.Pos(), "the position may be forced only by a fetched difference (getDifference) or, for the seq box, by applyCombined")
 			}
 		}
@@ -859,7 +881,115 @@ func reachesFn(u *updFns, from, target *ssa.Function) bool {
 	return walk(from)
 }
 
+// isAnchor: f is one of the functions the rules know by name.
+func (u *updFns) isAnchor(f *ssa.Function) bool {
+	for _, a := range []*ssa.Function{u.gd, u.cgd, u.handle, u.applyPending, u.setState, u.SetState, u.newBox, u.checkGap,
+		u.applyPts, u.applyQts, u.applySeq, u.applyCombined, u.cApply, u.handleUpdates, u.handleSeq, u.handleChannel, u.run, u.cRun,
+		u.gdLogger, u.cgdLogger, u.handleTooLong, u.dispatch, u.cDispatch, u.sendOut} {
+		if a == f {
+			return true
+		}
+	}
+	return false
+}
+
+// plainHelper: the static callee of call when it is a function of the package
+// that the rules do not know by name — lines a maintainer may have extracted
+// from an anchor function. What the helper does (hand over, persist, jump)
+// then counts as done at the call.
+func (u *updFns) plainHelper(call ssa.CallInstruction) *ssa.Function {
+	h := call.Common().StaticCallee()
+	if h == nil || len(h.Blocks) == 0 || h.Pkg != u.gd.Pkg || u.isAnchor(h) {
+		return nil
+	}
+	return h
+}
+
+// innerSinks: the hand-over calls inside a plain helper.
+func (u *updFns) innerSinks(h *ssa.Function) []armSink {
+	var out []armSink
+	for _, g := range engine.WithAnon(h) {
+		for _, k := range engine.Calls(g) {
+			if kind := u.sinkKindDirect(k); kind != "" {
+				out = append(out, armSink{k, kind})
+			}
+		}
+	}
+	return out
+}
+
+// sinkKind: the kind of hand-over a call performs, directly or through a plain
+// helper (the weakest kind found in the helper: queue < maybuffer < deliver).
 func (u *updFns) sinkKind(call ssa.CallInstruction) string {
+	if k := u.sinkKindDirect(call); k != "" {
+		return k
+	}
+	h := u.plainHelper(call)
+	if h == nil {
+		return ""
+	}
+	rank := map[string]int{"": 0, "deliver": 1, "maybuffer": 2, "queue": 3}
+	worst := ""
+	for _, s := range u.innerSinks(h) {
+		if rank[s.kind] > rank[worst] {
+			worst = s.kind
+		}
+	}
+	return worst
+}
+
+// sinkName: the name of the hand-over function a sink call ends in (stable
+// under extraction of the call into a helper).
+func (u *updFns) sinkName(call ssa.CallInstruction) string {
+	if u.sinkKindDirect(call) == "" {
+		if h := u.plainHelper(call); h != nil {
+			if in := u.innerSinks(h); len(in) > 0 {
+				return in[0].call.Common().StaticCallee().Name()
+			}
+		}
+	}
+	return call.Common().StaticCallee().Name()
+}
+
+// refineTaint: a plain-helper call stays in the tainted set only if a
+// parameter that receives a value derived from srcs reaches a hand-over call
+// inside the helper.
+func (u *updFns) refineTaint(tc map[ssa.CallInstruction]bool, srcs []ssa.Value) {
+	for call := range tc {
+		if u.sinkKindDirect(call) != "" {
+			continue
+		}
+		h := u.plainHelper(call)
+		if h == nil {
+			continue
+		}
+		var ps []ssa.Value
+		for i, a := range engine.Args(call.Common()) {
+			if i >= len(h.Params) {
+				break
+			}
+			for _, s := range srcs {
+				if a == s || engine.DependsOn(a, s) {
+					ps = append(ps, h.Params[i])
+				}
+			}
+		}
+		flows := false
+		if len(ps) > 0 {
+			in := taintedCalls(h, ps)
+			for k := range in {
+				if u.sinkKindDirect(k) != "" {
+					flows = true
+				}
+			}
+		}
+		if !flows {
+			delete(tc, call)
+		}
+	}
+}
+
+func (u *updFns) sinkKindDirect(call ssa.CallInstruction) string {
 	f := call.Common().StaticCallee()
 	switch f {
 	case nil:
@@ -895,7 +1025,14 @@ func (u *updFns) advances(a diffArm) (mem []ssa.CallInstruction, persist []ssa.C
 		if call.Common().StaticCallee() == u.SetState {
 			mem = append(mem, call)
 		}
-		if cl := closureOf(call.Common().Value); cl != nil && cl.Parent() == a.fn {
+		cl := closureOf(call.Common().Value)
+		if cl != nil && cl.Parent() != a.fn {
+			cl = nil
+		}
+		if cl == nil {
+			cl = u.plainHelper(call) // the same lines as a method instead of a closure
+		}
+		if cl != nil {
 			sets, pers := false, false
 			for _, k := range engine.Calls(cl) {
 				if k.Common().StaticCallee() == u.SetState {
@@ -1013,6 +1150,7 @@ func c02(c *engine.Ctx, u *updFns) {
 				}
 				loads := a.fieldLoads(f)
 				tc := taintedCalls(a.fn, loads)
+				u.refineTaint(tc, loads)
 				var sinks []armSink
 				for call := range tc {
 					if k := u.sinkKind(call); k != "" && a.contains(call) {
@@ -1063,13 +1201,13 @@ func c02(c *engine.Ctx, u *updFns) {
 								}
 							}
 							n6++
-							c.Check(len(okEdges) == 1 && !swallowed, "C02.R10", key+"/"+s.call.Common().StaticCallee().Name()+"/failed-hand-over-stops-the-arm", s.call.Pos(), "when handing over %s fails (e.g. the nested difference fetch inside handleUpdates) the arm still moves the position to the difference's end: the updates are skipped for good instead of being fetched again", f)
+							c.Check(len(okEdges) == 1 && !swallowed, "C02.R10", key+"/"+u.sinkName(s.call)+"/failed-hand-over-stops-the-arm", s.call.Pos(), "when handing over %s fails (e.g. the nested difference fetch inside handleUpdates) the arm still moves the position to the difference's end: the updates are skipped for good instead of being fetched again", f)
 						}
 					}
 					// R7: no advance before the sink
 					for _, adv := range mem {
 						n6++
-						c.Check(!(engine.PathQuery{Fn: a.fn, From: adv, Barrier: rec}).Reaches(s.call), "C02.R7", key+"/"+s.call.Common().StaticCallee().Name()+"/not-after-jump", s.call.Pos(), "the position is moved to the difference's end before its %s are handed over: they are then checked against the new position and dropped as outdated", f)
+						c.Check(!(engine.PathQuery{Fn: a.fn, From: adv, Barrier: rec}).Reaches(s.call), "C02.R7", key+"/"+u.sinkName(s.call)+"/not-after-jump", s.call.Pos(), "the position is moved to the difference's end before its %s are handed over: they are then checked against the new position and dropped as outdated", f)
 					}
 					if s.kind == "maybuffer" {
 						jump := false
@@ -1288,10 +1426,26 @@ func c03(c *engine.Ctx, u *updFns) {
 		{u.applyCombined, []*ssa.Function{u.dispatch}, false},
 	} {
 		var del, per []ssa.CallInstruction
+		delName := map[ssa.CallInstruction]string{}
+		nameOf := func(d ssa.CallInstruction) string {
+			if n, ok := delName[d]; ok {
+				return n
+			}
+			return d.Common().StaticCallee().Name()
+		}
 		for _, call := range engine.Calls(spec.fn) {
 			for _, d := range spec.delivers {
 				if call.Common().StaticCallee() == d {
 					del = append(del, call)
+				} else if h := u.plainHelper(call); h != nil && h.Name() != "handlePts" && h.Name() != "handleQts" && h.Name() != "handleChannel" {
+					// the hand-over extracted into a helper of the package
+					for _, g := range engine.WithAnon(h) {
+						if len(callsFn(g, d)) > 0 {
+							del = append(del, call)
+							delName[call] = d.Name()
+							break
+						}
+					}
 				}
 			}
 			if spec.fn == u.applyCombined {
@@ -1313,7 +1467,7 @@ func c03(c *engine.Ctx, u *updFns) {
 		for _, p := range per {
 			for _, d := range del {
 				n1++
-				c.Check(!(engine.PathQuery{Fn: spec.fn, From: p, Barrier: barrier}).Reaches(d), "C03.R1", key+"/"+p.Common().Method.Name()+"#"+ordinalCall(spec.fn, p)+"/not-before/"+d.Common().StaticCallee().Name()+"#"+ordinalCall(spec.fn, d), p.Pos(), "a position is persisted and an update it covers is handed over afterwards: a crash in between loses it")
+				c.Check(!(engine.PathQuery{Fn: spec.fn, From: p, Barrier: barrier}).Reaches(d), "C03.R1", key+"/"+p.Common().Method.Name()+"#"+ordinalCall(spec.fn, p)+"/not-before/"+nameOf(d)+"#"+ordinalCall(spec.fn, d), p.Pos(), "a position is persisted and an update it covers is handed over afterwards: a crash in between loses it")
 			}
 			if spec.stateArg {
 				n1++
@@ -1343,12 +1497,13 @@ func c03(c *engine.Ctx, u *updFns) {
 			for _, p := range persist {
 				for _, s := range sinks {
 					n2++
-					c.Check(!(engine.PathQuery{Fn: a.fn, From: p, Barrier: rec}).Reaches(s.call), "C03.R2", spec.label+"/"+a.name+"/persist#"+ordinalCall(a.fn, p)+"/not-before/"+s.call.Common().StaticCallee().Name()+"#"+ordinalCall(a.fn, s.call), p.Pos(), "the difference's end position is persisted before its contents are handed over")
+					c.Check(!(engine.PathQuery{Fn: a.fn, From: p, Barrier: rec}).Reaches(s.call), "C03.R2", spec.label+"/"+a.name+"/persist#"+ordinalCall(a.fn, p)+"/not-before/"+u.sinkName(s.call)+"#"+ordinalCall(a.fn, s.call), p.Pos(), "the difference's end position is persisted before its contents are handed over")
 				}
 			}
 			for _, f := range carriedFields(a.typ) {
 				loads := a.fieldLoads(f)
 				tc := taintedCalls(a.fn, loads)
+				u.refineTaint(tc, loads)
 				if !strings.HasSuffix(a.name, "TooLong") {
 					// the position must not be persisted on a path that neither handed the field over nor found it empty
 					isSinkOfF := func(i ssa.Instruction) bool {
@@ -1374,7 +1529,7 @@ func c03(c *engine.Ctx, u *updFns) {
 						continue
 					}
 					n3++
-					key := spec.label + "/" + a.name + "/" + f + "/" + s.call.Common().StaticCallee().Name()
+					key := spec.label + "/" + a.name + "/" + f + "/" + u.sinkName(s.call)
 					if s.kind == "queue" {
 						followed := false
 						for _, p := range persist {
